@@ -48,10 +48,27 @@ def main():
             rc, o = sh(f"/venv/bin/python {d}/demo.py {WT}", cwd=WT, env=env, timeout=600)
             rec["demo_without_patch"] = "PASS" if rc == 0 else f"exit {rc}: {o[-300:]}"
             rc, o = sh(f"git apply {d}/patch.diff", cwd=WT)
+            if rc != 0:
+                # /repo has moved on since the change was written (fix: commits): merge it
+                sh("git checkout -- . && git clean -fdq", cwd=WT)
+                rc, o = sh(f"git apply --3way {d}/patch.diff && test -z \"$(git diff --name-only --diff-filter=U)\"", cwd=WT)
+                if rc == 0:
+                    rec["applied_by"] = "git apply --3way (the tree has later fix: commits)"
+                    sh("git reset -q", cwd=WT)        # keep the merged working tree, clear the index
             rec["applies"] = rc == 0
             if rc != 0:
+                sh("git reset -q --hard && git clean -fdq", cwd=WT)
                 rec["apply_error"] = o[-300:]
+                # keep the evaluation made when the change still applied, with a note
+                dst = os.path.join(VERIF, "seeded", name, "meta.json")
+                if os.path.exists(dst):
+                    meta = json.load(open(dst))
+                    meta.setdefault("evaluation", {})["note"] = (
+                        "written against /repo 42b965b; no longer applies after the fix: commits c4a8f45 / f5e9040, "
+                        "which edit the same lines; the evaluation above was made on 42b965b before those fixes")
+                    json.dump(meta, open(dst, "w"), indent=1)
                 results.append(rec)
+                print(json.dumps({"seed": name, "applies": False}))
                 continue
             rc, o = sh("/venv/bin/python -m pytest -q -p no:cacheprovider tests 2>&1 | tail -3", cwd=WT, env=env)
             m = re.search(r"(\d+) passed", o)
@@ -64,6 +81,8 @@ def main():
             # run the check
             if in_repo:
                 rc, o = sh(f"git -C /repo apply {d}/patch.diff")
+                if rc != 0:
+                    rc, o = sh(f"git -C /repo apply --3way {d}/patch.diff && git -C /repo reset -q")
                 assert rc == 0, o
                 try:
                     rc, o = sh(f"./check {prop} --tier quick", cwd=VERIF, timeout=3000)
@@ -95,11 +114,13 @@ def main():
             dst = os.path.join(VERIF, "seeded", name)
             os.makedirs(dst, exist_ok=True)
             for f in ("patch.diff", "demo.py"):
-                shutil.copy(os.path.join(d, f), os.path.join(dst, f))
+                if os.path.abspath(os.path.join(d, f)) != os.path.abspath(os.path.join(dst, f)):
+                    shutil.copy(os.path.join(d, f), os.path.join(dst, f))
             try:
                 meta = json.load(open(os.path.join(d, "meta.json")))
             except Exception:
                 meta = {}
+            meta.pop("evaluation", None)
             meta["evaluation"] = rec
             json.dump(meta, open(os.path.join(dst, "meta.json"), "w"), indent=1)
             results.append(rec)
